@@ -2,9 +2,13 @@
 
 from __future__ import annotations
 
+import asyncio
+import json
+
 from hypothesis import strategies as st
 
-from .. import genwf
+from .. import boot, genwf
+from ..boot import Runaway, VClock
 from ..runner import CaseResult
 from ._engine import EngineProp
 
@@ -18,13 +22,26 @@ class C04(EngineProp):
         "an exhausted step failure, a non-Event return value, the workflow timeout, cancel_run at a generated instant, or by user "
         "retry code that raises (a policy whose next() raises on its k-th call, or a retry predicate that raises); otherwise by the "
         "harness Fin event. A consumer iterates handler.stream_events() concurrently. Non-trivial = outcome other than plain "
-        "success, or >=2 workers were running when the terminal tick arrived."
+        "success, or >=2 workers were running when the terminal tick arrived. "
+        "Second family (limited_runs): ONE workflow instance of a two-step workflow with num_concurrent_runs in 1..3 (optionally a workflow "
+        "timeout) and 2-6 runs of it started at generated virtual instants, more runs than slots in most cases; each run has generated step "
+        "durations, optional stream writes, optionally fails in its first or second step, runs into the workflow timeout, and/or is "
+        "cancelled with cancel_run at a generated instant (at once, while it still waits for a slot, while it runs, after it ended); its "
+        "stream_events() consumer is attached at run() or only after the run has ended. The same clauses are judged for EVERY run of the "
+        "case: the run finishes, its consumer terminates, the stream holds exactly one terminal event, of the kind matching the run's "
+        "outcome (and carrying that run's result / exception), as its last event, and nothing is left or arrives in the publish queue "
+        "afterwards (judged at the end of the case, so also after a cancel_run on an ended run). Non-trivial there = some run had to wait "
+        "for a slot or ended other than by its result."
     )
     assumptions = [
         "'finishes' = the handler's result future is done; the stream consumer then gets 5 virtual seconds (nothing in the engine needs time there)",
         "virtual time / generated ties as in C01",
+        "limited_runs: step bodies write to the stream only after a positive sleep, durations are whole seconds, the workflow timeout is k+1/2 and "
+        "run k's cancel instant has the fractional part (2k+1)/64, so no step ever writes at the instant of a non-result terminal event of its own "
+        "run (the late-write finding of the first family cannot occur there by construction)",
     ]
     liveness = True
+    budgets = {"quick": 1000, "thorough": 5000}
 
     def strategy(self, tier):
         base = genwf.program_strategy(stop_mode="any", cancel=True, timeouts=True, nonevent=True, retries=True, waits=True, collect=True)
@@ -95,7 +112,37 @@ class C04(EngineProp):
                 spec = dict(spec, prior_run=True)
             return spec
 
-        return st.tuples(st.one_of(with_policy_faults(), with_policy_faults(), stop_race(), user_policy_failures()), st.sampled_from([False, False, False, True])).map(prior)
+        @st.composite
+        def limited_runs(draw):
+            """Several runs of ONE workflow instance that has num_concurrent_runs slots: runs queue for a slot, and end in every way."""
+            limit = draw(st.sampled_from([1, 1, 2, 2, 3]))
+            runs = []
+            for _ in range(draw(st.integers(2, 6))):
+                runs.append(
+                    {
+                        "at": draw(st.sampled_from([0, 0, 0, 1, 1, 2, 3])),
+                        "d1": draw(st.sampled_from([0, 1, 2, 3])),
+                        "d2": draw(st.sampled_from([0, 0, 1, 2])),
+                        "w1": draw(st.booleans()),
+                        "w2": draw(st.booleans()),
+                        "fail": draw(st.sampled_from([None, None, None, None, 1, 2])),
+                        # cancel_run(): "now" = in the same instant as run(); n = n whole seconds (plus the run's own fraction) after run()
+                        "cancel": draw(st.sampled_from([None, None, None, "now", 0, 0, 1, 2, 4, 7])),
+                        "consume": draw(st.sampled_from(["live", "live", "live", "late"])),
+                    }
+                )
+            return {"family": "limited_runs", "limit": limit, "timeout": draw(st.sampled_from([None, None, None, 0.5, 1.5, 1.5, 2.5, 4.5])), "runs": runs,
+                    "ties": draw(st.lists(st.integers(0, 7), max_size=6))}
+
+        programs = st.tuples(st.one_of(with_policy_faults(), with_policy_faults(), stop_race(), user_policy_failures()), st.sampled_from([False, False, False, True])).map(prior)
+        limited = limited_runs()
+
+        @st.composite
+        def pick(draw):
+            # one case in five is of the limited_runs family (st.one_of over repeated identical branches does not weight them)
+            return draw(limited) if draw(st.integers(0, 4)) == 0 else draw(programs)
+
+        return pick()
 
     def retry_builder(self, spec):
         m = genwf.M()
@@ -170,6 +217,234 @@ class C04(EngineProp):
     def run_spec(self, spec, **kw):
         return genwf.run_case_program(spec, probe=True, retry_builder=self.retry_builder, **kw)
 
+    def run_case(self, case):
+        if isinstance(case, dict) and case.get("family") == "limited_runs":
+            return self.run_limited(json.loads(json.dumps(case)))
+        return super().run_case(case)
+
+    # ------------------------------------------------------------------ family limited_runs
+
+    def _limited_cls(self, log):
+        m = genwf.M()
+        ge, step, Context, Workflow = m["ge"], m["step"], m["Context"], m["Workflow"]
+
+        async def a(self, ctx, ev):
+            k = ev.get("k")
+            if log[k]["enter"] is None:
+                log[k]["enter"] = VClock.t
+                log[k]["seq"]["enter"] = genwf.cur().nseq()
+            if ev.get("d1"):
+                await asyncio.sleep(ev.get("d1"))
+                if ev.get("w1"):
+                    ctx.write_event_to_stream(ge.Note(k=k, by="a"))
+            if ev.get("fail") == 1:
+                raise ge.GenError(f"run{k}:a")
+            return ge.E0(k=k, d2=ev.get("d2"), w2=ev.get("w2"), fail=ev.get("fail"))
+
+        async def b(self, ctx, ev):
+            k = ev.get("k")
+            if ev.get("d2"):
+                await asyncio.sleep(ev.get("d2"))
+                if ev.get("w2"):
+                    ctx.write_event_to_stream(ge.Note(k=k, by="b"))
+            if ev.get("fail") == 2:
+                raise ge.GenError(f"run{k}:b")
+            return ge.GStop(result=k)
+
+        def ann(fn, name, ev_t, ret_t):
+            fn.__name__ = name
+            fn.__qualname__ = f"C04LimitedWf.{name}"
+            fn.__annotations__ = {"ctx": Context, "ev": ev_t, "return": ret_t}
+            return fn
+
+        return type("C04LimitedWf", (Workflow,), {"a": step(ann(a, "a", ge.GStart, ge.E0)), "b": step(ann(b, "b", ge.E0, ge.GStop))})
+
+    def run_limited(self, case) -> CaseResult:
+        r = CaseResult()
+        m = genwf.M()
+        ge = m["ge"]
+        runs = case["runs"]
+        limit = case["limit"]
+        n = len(runs)
+        # instants (virtual time) and, under "seq", the order of the same moments within one instant
+        log = [{"started": None, "enter": None, "done": None, "cancelled_at": None, "cancel_after_end": False, "consumer_finished": None,
+                "outcome": None, "publish_left": None, "left_types": [], "seq": {}} for _ in runs]
+        rec = genwf.Rec({"ties": case["ties"], "ext": []})
+        sinks = [genwf.Rec({"ties": [], "ext": []}) for _ in runs]  # one stream record per run (what consume_stream fills)
+        horizon = 60.0 + 4 * sum(x["d1"] + x["d2"] + x["at"] for x in runs) + 4 * n * float(case["timeout"] or 0)
+        genwf.CUR = rec
+        runtime = genwf.make_runtime()
+        wf = self._limited_cls(log)(timeout=case["timeout"], runtime=runtime, num_concurrent_runs=limit)
+        handlers: list = [None] * n
+
+        async def main():
+            genwf.CUR = rec
+            side: list = []
+
+            async def cancel_later(k, spec, h):
+                if spec["cancel"] != "now":
+                    await asyncio.sleep(spec["cancel"] + (2 * k + 1) / 64)
+                if h._result_task.done():
+                    log[k]["cancel_after_end"] = True
+                else:
+                    log[k]["cancelled_at"] = VClock.t
+                    log[k]["seq"]["cancel"] = rec.nseq()
+                await h.cancel_run(timeout=1e9)
+
+            async def one(k, spec):
+                lg = log[k]
+                if spec["at"]:
+                    await asyncio.sleep(spec["at"])
+                lg["started"] = VClock.t
+                lg["seq"]["started"] = rec.nseq()
+                h = wf.run(start_event=ge.GStart(k=k, d1=spec["d1"], d2=spec["d2"], w1=spec["w1"], w2=spec["w2"], fail=spec["fail"]), run_id=f"run-{k}")
+                handlers[k] = h
+
+                def done(_t, lg=lg):
+                    lg["done"] = VClock.t
+                    lg["seq"]["done"] = rec.nseq()
+
+                h._result_task.add_done_callback(done)
+                consumer = None
+                if spec["consume"] == "live":
+                    consumer = asyncio.create_task(genwf.consume_stream(sinks[k], h))
+                    side.append(consumer)
+                canc = None
+                if spec["cancel"] is not None:
+                    canc = asyncio.create_task(cancel_later(k, spec, h))
+                    side.append(canc)
+                fin, _ = await asyncio.wait({h._result_task}, timeout=max(0.0, horizon - VClock.t))
+                if fin:
+                    if consumer is None:
+                        # a consumer that attaches only after the run has ended still gets the whole stream
+                        await asyncio.sleep(1)
+                        consumer = asyncio.create_task(genwf.consume_stream(sinks[k], h))
+                        side.append(consumer)
+                    await asyncio.wait({consumer}, timeout=5.0)
+                lg["consumer_finished"] = consumer is not None and consumer.done()
+                if canc is not None and not canc.done():
+                    await asyncio.wait({canc}, timeout=max(0.0, horizon - VClock.t))
+
+            tasks = [asyncio.create_task(one(k, s)) for k, s in enumerate(runs)]
+            await asyncio.wait(tasks, timeout=2 * horizon)
+            await asyncio.sleep(1)
+            for k, h in enumerate(handlers):
+                if h is None:
+                    continue
+                log[k]["outcome"] = genwf.classify_outcome(rec, h)
+                try:
+                    q = h._external_adapter._queues.publish_queue
+                    log[k]["publish_left"] = q.qsize()
+                    log[k]["left_types"] = sorted({type(x).__name__ for x in list(getattr(q, "_queue", []))})
+                except Exception:  # noqa: BLE001
+                    pass
+                if not h._result_task.done():
+                    try:
+                        h._external_adapter.abort()
+                    except Exception:  # noqa: BLE001
+                        pass
+            for t in tasks + side:
+                if not t.done():
+                    t.cancel()
+            await asyncio.gather(*tasks, *side, *[h._result_task for h in handlers if h is not None], return_exceptions=True)
+
+        try:
+            boot.run_virtual(main)
+        except Runaway as e:
+            r.v("runaway", detail=str(e)[:80], family="limited_runs")
+            r.nontrivial = True
+            return r
+        finally:
+            genwf.CUR = None
+
+        INF = float("inf")
+        waited = False
+        cls: set = set()
+        for k, spec in enumerate(runs):
+            lg = log[k]
+            if lg["started"] is None or lg["outcome"] is None:
+                raise RuntimeError(f"limited_runs harness: run {k} was never started")
+            out = lg["outcome"]
+            kind = out["kind"]
+            # slots are handed out in the order of the run() calls: how many runs started before this one had not ended at moment q?
+            # (moments are ordered by a counter, so that runs which start, wait and end within one virtual instant are classified too)
+            sq = lg["seq"]
+
+            def ahead(q, k=k):
+                return sum(1 for j in range(n) if j != k and log[j]["seq"]["started"] < log[k]["seq"]["started"] and log[j]["seq"].get("done", INF) > q)
+
+            had_to_wait = ahead(sq["started"]) >= limit
+            waited = waited or had_to_wait
+            c_at = lg["cancelled_at"]
+            queued_when_cancelled = c_at is not None and sq.get("enter", INF) > sq["cancel"] and ahead(sq["cancel"]) >= limit
+            cls.add("limited_outcome_" + kind)
+            if had_to_wait:
+                cls.add("limited_run_waited_for_slot")
+            if queued_when_cancelled:
+                cls.add("limited_cancelled_while_waiting_for_slot")
+                if spec["consume"] == "late":
+                    cls.add("limited_cancelled_while_waiting_late_consumer")
+            elif c_at is not None:
+                cls.add("limited_cancelled_while_running")
+            if lg["cancel_after_end"]:
+                cls.add("limited_cancel_run_after_end")
+            if kind == "timeout" and had_to_wait:
+                cls.add("limited_waited_then_timed_out")
+            if case["timeout"] is not None and lg["enter"] is not None and lg["enter"] - lg["started"] > case["timeout"]:
+                cls.add("limited_waited_longer_than_the_timeout")
+            extra = {"family": "limited_runs", "limit": limit, "waited_for_slot": had_to_wait, "queued_when_cancelled": queued_when_cancelled}
+            if kind == "unfinished":
+                r.v("run_never_finished", policy_fault=False, **extra)
+                continue
+            if kind == "result" and out["stop"].result != k:
+                r.v("result_of_another_run", **extra)
+            stream = sinks[k].stream
+            if sinks[k].consumer_error is not None:
+                r.v("consumer_raised", outcome=kind, error=repr(sinks[k].consumer_error)[:80], consume=spec["consume"], **extra)
+            elif not lg["consumer_finished"]:
+                r.v("consumer_not_terminated", outcome=kind, engine_side=False, exc=type(out.get("exc")).__name__, consume=spec["consume"], **extra)
+            self.terminal_clauses(r, kind, out, stream, extra)
+            foreign = [type(e).__name__ for _, e in stream if type(e).__name__ in ("Note", "GStop") and (e.get("k", None) if type(e).__name__ == "Note" else e.result) != k]
+            if foreign:
+                r.v("event_of_another_run_in_stream", outcome=kind, events=foreign[:3], **extra)
+            if lg["publish_left"]:
+                # no step of this family writes at the instant of a terminal event (see assumptions), so this is never the late-write
+                # finding of the first family: it carries none of that finding's attributes
+                r.v("publish_queue_not_empty_after_terminal", left=lg["publish_left"], outcome=kind, left_types=lg["left_types"],
+                    same_instant_writer=False, cancel_run_after_end=lg["cancel_after_end"], **extra)
+        if n > limit:
+            cls.add("limited_more_runs_than_slots")
+        cls.add("family_limited_runs")
+        r.classes.extend(sorted(cls))
+        r.nontrivial = waited or any(lg["outcome"]["kind"] != "result" for lg in log)
+        r.sample = {"case": case, "log": [{k_: (v["kind"] if k_ == "outcome" else v) for k_, v in lg.items()} for lg in log]}
+        return r
+
+    # ------------------------------------------------------------------ oracle
+
+    @staticmethod
+    def terminal_clauses(r: CaseResult, kind: str, out: dict, stream: list, extra: dict, engine_side: bool = False) -> None:
+        """Exactly one terminal event, last in the stream, of the kind of the outcome and carrying the outcome's payload."""
+        names = [type(e).__name__ for _, e in stream]
+        terminals = [(i, e) for i, (_, e) in enumerate(stream) if type(e).__name__ in TERMINAL or type(e).__name__ == "GStop"]
+        if len(terminals) != 1:
+            r.v("terminal_event_count", outcome=kind, count=len(terminals), engine_side=engine_side, **extra)
+        if terminals:
+            i, e = terminals[-1]
+            if i != len(stream) - 1:
+                r.v("published_after_terminal", outcome=kind, after=names[i + 1 :][:3], **extra)
+            tn = type(e).__name__
+            want = {"result": "GStop", "failed": "WorkflowFailedEvent", "cancelled": "WorkflowCancelledEvent", "timeout": "WorkflowTimedOutEvent"}.get(kind)
+            if want is not None and tn != want:
+                r.v("terminal_kind_mismatch", outcome=kind, terminal=tn, **extra)
+            if kind == "result" and tn == "GStop":
+                if e.get("uid") != out["stop"].get("uid") or e.result != out["stop"].result:
+                    r.v("stop_event_not_the_result", **extra)
+            if kind == "failed" and tn == "WorkflowFailedEvent":
+                ex = out["exc"]
+                if type(e.exception) is not type(ex) or str(e.exception) != str(ex):
+                    r.v("failed_event_other_exception", event_exc=repr(e.exception)[:60], run_exc=repr(ex)[:60], **extra)
+
     def oracle(self, spec, rec, r: CaseResult) -> None:
         out = rec.outcome
         kind = out["kind"]
@@ -189,30 +464,12 @@ class C04(EngineProp):
             # the engine died silently; report separately so it is not lost
             r.v("run_never_finished", policy_fault=policy_fault)
             return
-        names = [type(e).__name__ for _, e in rec.stream]
-        terminals = [(i, e) for i, (_, e) in enumerate(rec.stream) if type(e).__name__ in TERMINAL or type(e).__name__ == "GStop"]
         engine_side = kind == "failed" and type(out["exc"]).__name__ == "GenErrorB"
         if engine_side:
             r.classes.append("engine_side_failure")
         if not rec.consumer_finished:
             r.v("consumer_not_terminated", outcome=kind, engine_side=engine_side, exc=type(out.get("exc")).__name__)
-        if len(terminals) != 1:
-            r.v("terminal_event_count", outcome=kind, count=len(terminals), engine_side=engine_side)
-        if terminals:
-            i, e = terminals[-1]
-            if i != len(rec.stream) - 1:
-                r.v("published_after_terminal", outcome=kind, after=names[i + 1 :][:3])
-            tn = type(e).__name__
-            want = {"result": "GStop", "failed": "WorkflowFailedEvent", "cancelled": "WorkflowCancelledEvent", "timeout": "WorkflowTimedOutEvent"}.get(kind)
-            if want is not None and tn != want:
-                r.v("terminal_kind_mismatch", outcome=kind, terminal=tn)
-            if kind == "result" and tn == "GStop":
-                if e.get("uid") != out["stop"].get("uid") or e.result != out["stop"].result:
-                    r.v("stop_event_not_the_result")
-            if kind == "failed" and tn == "WorkflowFailedEvent":
-                ex = out["exc"]
-                if type(e.exception) is not type(ex) or str(e.exception) != str(ex):
-                    r.v("failed_event_other_exception", event_exc=repr(e.exception)[:60], run_exc=repr(ex)[:60])
+        self.terminal_clauses(r, kind, out, rec.stream, {}, engine_side=engine_side)
         if rec.publish_left:
             left_types = getattr(rec, "publish_left_types", [])
             # what is left: events a step wrote itself (ctx.write_event_to_stream -> Note) and step-state telemetry, or something else
